@@ -31,10 +31,11 @@ Definition of_wb (s : sst QI) : sx :=
       of_bool (match s_in s, s_circ s with
                | Some st, Some (m, _) => chain_closed m (firstn (S (total st)) (s_lv s))
                | _, _ => true end) ].
-(* args: fixA, fixB, ops -> per operation [output, white box after it] *)
+(* args: fix (1 = the code as it is now = all three repairs, 0 = the code before 1c6530fa), unused, ops
+   -> per operation [output, white box after it] *)
 Definition x_slos_run (x : sx) : sx :=
-  let fa := to_bool (nthx 0 x) in let fb := to_bool (nthx 1 x) in
-  L (rev (snd (fold_left (fun acc o => let r := sstep QI fa fb (fst acc) (to_op o) in
+  let fa := to_bool (nthx 0 x) in
+  L (rev (snd (fold_left (fun acc o => let r := sstep QI fa fa fa (fst acc) (to_op o) in
                                         (fst r, L [of_out (snd r); of_wb (fst r)] :: snd acc))
                          (to_list (nthx 2 x)) (sinit QI, [])))).
 (* args: m, U, masks or -1, mask_n, input, squery kind, t -> what the configuration alone determines *)
